@@ -28,6 +28,16 @@ Script_HA_hyb == << [op |-> "add_dim", d |-> "D1"], Op("add_attr", "D1", "a", FA
 \* D2 only (anarchy) a, b
 Script_A == << [op |-> "add_dim", d |-> "D2"], Op("add_attr", "D2", "a", FALSE, ""), Op("add_attr", "D2", "b", FALSE, ""), [op |-> "update"] >>
 
+\* more static shapes (C01 / C02 / C11): two hierarchies; two anarchies; three dimensions
+MCKindHH == [d \in Dims |-> "H"]
+MCKindAA == [d \in Dims |-> "A"]
+Script_2x2 == << [op |-> "add_dim", d |-> "D1"], Op("add_attr", "D1", "a", FALSE, ""), Op("add_attr", "D1", "b", TRUE, ""),
+                 [op |-> "add_dim", d |-> "D2"], Op("add_attr", "D2", "a", FALSE, ""), Op("add_attr", "D2", "b", TRUE, "a"), [op |-> "update"] >>
+\* (in a hierarchy "b" added with after = "" is the LOWEST rank although created last: rank order differs from creation order)
+Script_3dims == << [op |-> "add_dim", d |-> "D1"], Op("add_attr", "D1", "a", FALSE, ""), Op("add_attr", "D1", "b", FALSE, ""),
+                   [op |-> "add_dim", d |-> "D2"], Op("add_attr", "D2", "a", TRUE, ""),
+                   [op |-> "add_dim", d |-> "D3"], Op("add_attr", "D3", "a", FALSE, ""), [op |-> "update"] >>
+
 Bound == /\ nsid <= MaxSid + 1
          /\ Len(mpks) <= MaxMpk
          /\ g.nextUid <= MaxUid + 1
